@@ -153,6 +153,14 @@ func runC17(e *Env) {
 			prefix = "/grp/in"
 			reg = func(f func()) { router.Group("/grp", f) }
 		}
+		if chance(r, 1, 4) {
+			// an upload endpoint registered BEFORE the static handler: same prefix, same variable
+			// name, another method and a laxer regex. It must not influence what GET serves.
+			reg(func() {
+				router.POST(regPrefix+"/{file}", func(c *rux.Context) { c.SetStatus(201) })
+			})
+			t.Count("requests.with_sibling_upload_route", 1)
+		}
 		switch kind {
 		case "StaticDir":
 			reg(func() { router.StaticDir(regPrefix, rootSpelling) })
